@@ -136,19 +136,20 @@ def check_props(pid, theorems):
         if not re.search(r"\b(Theorem|Lemma|Corollary)\s+" + re.escape(t) + r"\b", src) or \
            not re.search(r"Print Assumptions\s+" + re.escape(t) + r"\s*\.", src):
             res["missing"].append(t)
-    # parse Print Assumptions output
-    axioms = set()
-    for m in re.finditer(r"^([A-Za-z_][\w.']*)\s*:", out, flags=re.M):
-        nm = m.group(1)
-        if nm in ("Axioms", "Section", "Warning", "File"):
-            continue
-        axioms.add(nm)
-    # section variables are reported under "Section Variables:", axioms under "Axioms:"
-    ax_blocks = re.findall(r"Axioms:\n((?:.+\n?)+?)(?=\n\S|\Z|Closed|Section Variables)", out)
+    # parse Print Assumptions output: names listed (at column 0) under "Axioms:" headers
     ax = set()
-    for b in ax_blocks:
-        for m in re.finditer(r"^([A-Za-z_][\w.']*)\s*(?::|$)", b, flags=re.M):
-            ax.add(m.group(1))
+    mode = None
+    for line in out.splitlines():
+        if line.startswith("Axioms:"):
+            mode = "ax"
+            continue
+        if line.startswith("Section Variables:") or line.startswith("Closed under"):
+            mode = None
+            continue
+        if mode == "ax":
+            m = re.match(r"^([A-Za-z_][\w.']*)\s*(?::|$)", line)
+            if m:
+                ax.add(m.group(1))
     res["axioms"] = sorted(ax)
     res["bad_axioms"] = sorted(a for a in ax if a not in AXIOM_WHITELIST)
     res["discharged"] = len(theorems) - len(res["missing"]) if not res["bad_axioms"] else 0
